@@ -126,7 +126,9 @@ package lexer
 //@   modifies l.pos, l.hadWhitespace, l.hadNewline, l.lastNewLine, l.lineNumber, map token.interning
 //@   ensures  wf(l) && token.tablesOK()
 //@   ensures  nonnil:: result != nil
-//@   ensures  progress:: old(l.pos) < l.pos
+//@   ensures  monotone:: old(l.pos) <= l.pos
+//@   ensures  progress:: implies(!isEndTok(result), old(l.pos) < l.pos)
+//@   ensures  sticky:: implies(isEndTok(result), l.pos >= len(l.input) || l.input[l.pos] == 0)
 //@   witness s = l.pos after skipWhitespace#1
 //@   ensures  ws:: tokstart(l, old(l.pos), s) && s < l.pos
 //@   ensures  kinds:: implies(!isEndTok(result), s < len(l.input) && l.pos <= len(l.input) && (litTok(result) || result.tokenType == token.STRING || result.tokenType == token.LINECOMMENT || result.tokenType == token.ILLEGAL))
@@ -136,5 +138,5 @@ package lexer
 //@   ensures  illegal:: implies(result.tokenType == token.ILLEGAL, l.pos == s + 1)
 //@   ensures  end:: implies(isEndTok(result), endOK(l, s))
 //@   ensures  endmarker:: implies(isEndTok(result), result == l.EOLEOF())
-//@   ensures  atend:: implies(old(l.pos) >= len(l.input), isEndTok(result) && l.pos >= len(l.input))
+//@   ensures  atend:: implies(old(l.pos) >= len(l.input) || l.input[old(l.pos)] == 0, isEndTok(result))
 //@   property C16 C08
